@@ -47,6 +47,7 @@ def _analyses():
     from .analyses import a17_labels
     from .analyses import a4_kind as a4
     from .analyses import a4_dtype
+    from .analyses import a4_parity
     from .analyses import a5_factor, a5_linear, a7_axis, a7_order, a8_taint
     from .analyses import kernel_api as ka
     from .analyses import kernel_core as kc
@@ -55,22 +56,24 @@ def _analyses():
 
     vjp_axis = lambda c, w: a7_axis.hazards(c, w, modes=("vjp",))
     jvp_axis = lambda c, w: a7_axis.hazards(c, w, modes=("jvp",))
+    vjp_alias = lambda c, w: a5_factor.alias_agree(c, w, modes=("vjp",))
+    jvp_alias = lambda c, w: a5_factor.alias_agree(c, w, modes=("jvp",))
     vjp_order = lambda c, w: a7_order.layout_options(c, w, modes=("vjp",))
     jvp_order = lambda c, w: a7_order.layout_options(c, w, modes=("jvp",))
     thread = lambda c, w: kt.global_effects(c, w, thread=True)
     return {
         "C01": (
-            [a3.vjp, a3.helpers, a3_reduce.reductions, km.squeeze_axes, a16_perm.permutations_rule, a16_perm.norm_rolls, a17_labels.contraction_adjoints, vjp_axis, vjp_order, a2.catchall, a2.variadic, a2.argnums_rules, a2.positional_selection, a1.arity, ka.option_domains, a5_factor.agree, a5_linear.closures_linear, ka.arraybox_table, kc.inplace_sites],
+            [a3.vjp, a3.helpers, a3_reduce.reductions, km.squeeze_axes, a16_perm.permutations_rule, a16_perm.norm_rolls, a17_labels.contraction_adjoints, vjp_axis, vjp_order, a2.catchall, a2.forwarded_defaults, a2.variadic, a2.argnums_rules, a2.positional_selection, a1.arity, ka.option_domains, a5_factor.agree, vjp_alias, a5_linear.closures_linear, ka.arraybox_table, kc.inplace_sites],
             "Reverse-mode exactness is numerical; decided here are the configuration-dependent plumbing clauses every exact rule needs: "
-            "broadcast discipline of VJPs (A3.vjp), negative-axis hazards (A7), layout-relative `order` values never forwarded to the cotangent (A7.order), keyword/positional binding behind catch-alls (A2.catchall), "
-            "variadic offsets (A2.variadic), whole-argnums rules map element-wise (A2.argnums), slots of variadic primitives addressed by position, never by operand identity (A2.position), arity (A1.arity), closed option domains (A6.enum), VJP/JVP factor agreement of elementwise rules (A5), linearity of every rule closure in its cotangent (A5.lin: a VJP is a linear map; helper primitives it calls must be known to be linear in that operand) "
+            "broadcast discipline of VJPs (A3.vjp), negative-axis hazards (A7), layout-relative `order` values never forwarded to the cotangent (A7.order), keyword/positional binding behind catch-alls (A2.catchall), equal names and defaults where (*args, **kwargs) are forwarded to another NumPy function (A2.fwd), "
+            "variadic offsets (A2.variadic), whole-argnums rules map element-wise (A2.argnums), slots of variadic primitives addressed by position, never by operand identity (A2.position), arity (A1.arity), closed option domains (A6.enum), VJP/JVP factor agreement of elementwise rules (A5), equal rules for two names of one NumPy function (A5.alias), linearity of every rule closure in its cotangent (A5.lin: a VJP is a linear map; helper primitives it calls must be known to be linear in that operand) "
             "and the operator/method call forms (A14); no rule writes in place to its cotangent, its arguments or the answer (A9.inplace: every other rule that reads the same array would see the changed values). Each is a necessary condition: breaking one makes some call configuration silently wrong.",
         ),
         "C02": (
-            [a1.lin, a3.jvp, a3.helpers, a3_reduce.reductions, a16_perm.norm_rolls, ka.sibling_guards, jvp_axis, jvp_order, a2.catchall, a2.positional_selection, a1.arity, kc.zero_paths, a5_factor.agree, a5_linear.closures_linear, kc.inplace_sites],
+            [a1.lin, a3.jvp, a3.helpers, a3_reduce.reductions, a16_perm.norm_rolls, ka.sibling_guards, jvp_axis, jvp_order, a2.catchall, a2.forwarded_defaults, a2.positional_selection, a1.arity, kc.zero_paths, a5_factor.agree, jvp_alias, a5_linear.closures_linear, kc.inplace_sites],
             "Forward-mode: 'same'/def_linear only on linear (function, argument) pairs (A1.lin: exactly when the primitive applied to the tangent IS the JVP), "
             "output-shaped tangents of broadcasting JVPs (A3.jvp), guard agreement with the VJP twin (A6.sibling), axis hazards (A7), layout-relative `order` values (A7.order) and binding (A2; slots of variadic primitives addressed by position, A2.position) of JVP makers, "
-            "(value, tangent) order and zero tangents of the right space (A13.zero/A2.tuple), VJP/JVP factor agreement of elementwise rules (A5), linearity of every rule in its tangent (A5.lin); no JVP rule writes in place to the tangent, the arguments or the answer it is given (A9.inplace: the tangent stored on the parent node is read again by every later consumer).",
+            "(value, tangent) order and zero tangents of the right space (A13.zero/A2.tuple), VJP/JVP factor agreement of elementwise rules (A5), equal rules for two names of one NumPy function (A5.alias), linearity of every rule in its tangent (A5.lin); no JVP rule writes in place to the tangent, the arguments or the answer it is given (A9.inplace: the tangent stored on the parent node is read again by every later consumer).",
         ),
         "C03": (
             [kc.backward_pass, km.toposort, kc.dispatch, kt.wrapper, kc.raise_discipline, ka.arraybox_table, kc.ownership, km.container_vspaces, kc.inplace_sites],
@@ -104,9 +107,9 @@ def _analyses():
             "list resets on strictly greater / appends on equal (A12.top), dependence by id equality, re-entry of the wrapper for lower levels, answer boxed with the arguments' trace (A13.unbox).",
         ),
         "C09": (
-            [a4.vspace, a4.match, a4.match_jvp, a4.modulus, a5_factor.agree, ka.operators, a4_dtype.dtype_comparisons],
+            [a4.vspace, a4.match, a4.match_jvp, a4.modulus, a5_factor.agree, ka.operators, a4_dtype.dtype_comparisons, a4_parity.conj_parity],
             "Complex convention: ComplexArrayVSpace overrides (conjugating covector, real inner product, size 2n, two basis vectors per entry), kind plumbing of VJPs/JVPs for every "
-            "real/complex assignment (A4), conjugation placement in modulus-family rules (A4.modulus), no real/complex decision by comparing a dtype with the Python type `complex` (A4.dtypecmp: true for complex128 only), VJP/JVP factor agreement (holomorphic ufuncs: no conjugate in either table), holomorphic_grad = grad(real o f).",
+            "real/complex assignment (A4), conjugation placement in modulus-family rules (A4.modulus), conjugation parity of every rule in its (co)tangent (A4.parity: complex-linear in g except for conj itself), no real/complex decision by comparing a dtype with the Python type `complex` (A4.dtypecmp: true for complex128 only), VJP/JVP factor agreement (holomorphic ufuncs: no conjugate in either table), holomorphic_grad = grad(real o f).",
         ),
         "C10": (
             [kc.ownership, kc.purity, kc.inplace_sites, kc.closure_reuse, kc.backward_pass, km.container_vspaces],
